@@ -215,6 +215,18 @@ class Exec:
             return z3.Not(v) if is_sym(v) else (not v)
         if isinstance(n, ast.UnaryOp) and isinstance(n.op, ast.USub):
             return -self.ev(n.operand, st)
+        if isinstance(n, ast.IfExp):
+            c = self.ev(n.test, st)
+            if not is_sym(c):
+                return self.ev(n.body if c else n.orelse, st)
+            a, b = self.ev(n.body, st), self.ev(n.orelse, st)
+            if isinstance(a, (Frac, Rec)) or isinstance(b, (Frac, Rec)) or isinstance(a, float) or isinstance(b, float):
+                raise UnsupportedSyntax('conditional expression over fractions/records')
+            if isinstance(a, str) and isinstance(b, str):
+                return z3.If(c, z3.StringVal(a), z3.StringVal(b))
+            if a is None or b is None or isinstance(a, str) or isinstance(b, str):
+                raise UnsupportedSyntax('conditional expression of mixed kinds')
+            return z3.If(c, _int(a), _int(b))
         if isinstance(n, ast.Call):
             return self.call(n, st)
         if isinstance(n, ast.JoinedStr):
